@@ -16,6 +16,9 @@
      Handoff   the unbuffered send `ingestedLogs <- lastLogID` meets the persister's receive
    persister (manager.go:startPipeline, `for lastLogID := range subscription`)
      Persist      StorePipelineState(pipeline.ID, v) of the value it holds
+     LateAccept   (exporter side) the `go func(){ exporter.Accept(...) }()` of a handler that has halted
+               in the meantime (Run took the stopChannel case of the select) completes: the exporter
+               receives and acknowledges a page nobody waits for any more
      LatePersist  the same call made by the persister of an ALREADY HALTED handler: Run returning
                does not wait for it (close(subscription) only ends the range loop after the call in
                flight), and neither stopPipeline nor pipelinesWaitGroup covers that goroutine
@@ -46,7 +49,7 @@ Inductive hstate := HNone | HIdle | HPush (hi : Z) | HSend.
 Inductive mstate := MIdle | MStopping | MResetting.
 
 Inductive event :=
-| Produce (n : Z) | Fetch | PushOk | PushFail | Handoff | Persist | LatePersist (k : nat)
+| Produce (n : Z) | Fetch | PushOk | PushFail | Handoff | Persist | LatePersist (k : nat) | LateAccept (k : nat)
 | StopReq | Halt | ResetReq | Start | Crash.
 
 Inductive output :=
@@ -67,6 +70,8 @@ Record state := mk {
   cur : Z;                         (* p.pipeline.LastLogID of the current handler *)
   pers : option Z;                 (* value held by the current persister *)
   late : list (nat * Z);           (* values held by persisters of halted handlers, tagged with [gen] *)
+  lacc : list (Z * Z);             (* pages (cursor, end] handed to exporter.Accept by a handler that halted meanwhile:
+                                      the Accept goroutine of Run is not waited for either *)
   mgr : mstate;
   (* --- observers: exporter-side record and bookkeeping the theorems are stated with *)
   gen : nat;                       (* number of resets so far *)
@@ -80,7 +85,7 @@ Record state := mk {
 }.
 
 Definition init (page_size : Z) : state :=
-  mk page_size 0 0 HNone 0 None [] MIdle 0 false 0 [(0, [])] 0 0 [].
+  mk page_size 0 0 HNone 0 None [] [] MIdle 0 false 0 [(0, [])] 0 0 [].
 
 Fixpoint ids_from (lo : Z) (n : nat) : list Z :=
   match n with O => [] | S k => lo :: ids_from (lo + 1) k end.
@@ -92,6 +97,14 @@ Definition add_batch (b : list Z) (ep : list (Z * list (list Z))) :=
   match ep with
   | (r, bs) :: tl => (r, b :: bs) :: tl
   | [] => [(0, [b])]
+  end.
+
+(* a straggler batch is recorded as an epoch of its own, resume point = the cursor of the halted
+   handler that sent it, placed behind the current handler's epoch *)
+Definition add_stray (e : Z * list (list Z)) (ep : list (Z * list (list Z))) :=
+  match ep with
+  | h :: tl => h :: e :: tl
+  | [] => [e]
   end.
 
 Fixpoint remove_nth {A} (k : nat) (l : list A) : list A :=
@@ -106,24 +119,24 @@ Definition push_late (g : nat) (p : option Z) (l : list (nat * Z)) :=
 
 Definition step (s : state) (e : event) : state * list output :=
   match s with
-  | mk ps lg st h c pe la m g sl r ep ak ar ds =>
+  | mk ps lg st h c pe la lc m g sl r ep ak ar ds =>
     let refused := (s, [ORefused]) in
     match e with
     | Produce n =>
-        (mk ps (lg + Z.max 0 n) st h c pe la m g sl r ep ak ar ds, [])
+        (mk ps (lg + Z.max 0 n) st h c pe la lc m g sl r ep ak ar ds, [])
     | Fetch =>
         match h with
         | HIdle =>
             let k := Z.min (Z.max 1 ps) (lg - c) in
             if k <=? 0 then (s, [OFetch c 0])
-            else (mk ps lg st (HPush (c + k)) c pe la m g sl r ep ak ar ds, [OFetch c k])
+            else (mk ps lg st (HPush (c + k)) c pe la lc m g sl r ep ak ar ds, [OFetch c k])
         | _ => refused
         end
     | PushOk =>
         match h with
         | HPush hi =>
             let b := page c hi in
-            (mk ps lg st HSend hi pe la m g sl r (add_batch b ep) (Z.max ak hi) (Z.max ar hi) (ds ++ b),
+            (mk ps lg st HSend hi pe la lc m g sl r (add_batch b ep) (Z.max ak hi) (Z.max ar hi) (ds ++ b),
              [OBatch b])
         | _ => refused
         end
@@ -134,54 +147,63 @@ Definition step (s : state) (e : event) : state * list output :=
         end
     | Handoff =>
         match h, pe with
-        | HSend, None => (mk ps lg st HIdle c (Some c) la m g sl r ep ak ar ds, [])
+        | HSend, None => (mk ps lg st HIdle c (Some c) la lc m g sl r ep ak ar ds, [])
         | _, _ => refused
         end
     | Persist =>
         match h, pe with
         | HNone, _ => refused
-        | _, Some v => (mk ps lg v h c None la m g sl r ep ak ar ds, [OStore v false])
+        | _, Some v => (mk ps lg v h c None la lc m g sl r ep ak ar ds, [OStore v false])
         | _, None => refused
         end
     | LatePersist k =>
         match nth_error la k with
         | Some (g0, v) =>
             let old := Nat.ltb g0 g in
-            (mk ps lg v h c pe (remove_nth k la) m g (sl || old) r ep ak ar ds, [OStore v old])
+            (mk ps lg v h c pe (remove_nth k la) lc m g (sl || old) r ep ak ar ds, [OStore v old])
+        | None => refused
+        end
+    | LateAccept k =>
+        match nth_error lc k with
+        | Some (c0, hi) =>
+            let b := page c0 hi in
+            (mk ps lg st h c pe la (remove_nth k lc) m g sl r (add_stray (c0, [b]) ep) (Z.max ak hi) ar (ds ++ b),
+             [OBatch b])
         | None => refused
         end
     | StopReq =>
         match m, h with
         | MIdle, HNone => refused
-        | MIdle, _ => (mk ps lg st h c pe la MStopping g sl r ep ak ar ds, [])
+        | MIdle, _ => (mk ps lg st h c pe la lc MStopping g sl r ep ak ar ds, [])
         | _, _ => refused
         end
     | ResetReq =>
         match m, h with
-        | MIdle, HNone => (mk ps lg 0 h c pe la m (S g) sl r ep ak 0 [], [OClear])
-        | MIdle, _ => (mk ps lg st h c pe la MResetting g sl r ep ak ar ds, [])
+        | MIdle, HNone => (mk ps lg 0 h c pe la lc m (S g) sl r ep ak 0 [], [OClear])
+        | MIdle, _ => (mk ps lg st h c pe la lc MResetting g sl r ep ak ar ds, [])
         | _, _ => refused
         end
     | Halt =>
         match h with
         | HIdle | HPush _ =>
+            let lc' := match h with HPush hi => (c, hi) :: lc | _ => lc end in
             match m with
             | MIdle => refused
             | MStopping =>
-                (mk ps lg st HNone c None (push_late g pe la) MIdle g sl r ep ak ar ds, [OHalt])
+                (mk ps lg st HNone c None (push_late g pe la) lc' MIdle g sl r ep ak ar ds, [OHalt])
             | MResetting =>
-                (mk ps lg 0 HIdle 0 None (push_late g pe la) MIdle (S g) sl 0 ((0, []) :: ep) ak 0 [],
+                (mk ps lg 0 HIdle 0 None (push_late g pe la) lc' MIdle (S g) sl 0 ((0, []) :: ep) ak 0 [],
                  [OHalt; OClear; OResume 0])
             end
         | _ => refused
         end
     | Start =>
         match m, h with
-        | MIdle, HNone => (mk ps lg st HIdle st None la m g sl st ((st, []) :: ep) ak ar ds, [OResume st])
+        | MIdle, HNone => (mk ps lg st HIdle st None la lc m g sl st ((st, []) :: ep) ak ar ds, [OResume st])
         | _, _ => refused
         end
     | Crash =>
-        (mk ps lg st HNone c None [] MIdle g sl r ep ak ar ds, [OHalt])
+        (mk ps lg st HNone c None [] [] MIdle g sl r ep ak ar ds, [OHalt])
     end
   end.
 
